@@ -304,6 +304,8 @@ def run(chk) -> None:
     chk.rule("R04g", "a tuple-unpacking of a str.split / rsplit result has exactly as many targets as the split can produce: maxsplit == targets - 1 and the separator is known to be present (dominating `sep in s`) or ValueError is handled")
     _r04f(chk)
     _r04g(chk)
+    chk.rule("R04h", "a variant's tree is handed to lint_fix_parsed only where it is known to exist: every call whose tree argument is `<variant>.tree` (None after a fatal parse failure) is dominated by a truthiness test or an assert of that same attribute")
+    _r04h(chk)
 
 
 # ---------------------------------------------------------------------------
@@ -326,6 +328,56 @@ def _in_try_taking(node: ast.AST, names: Set[str]) -> bool:
                     return True
         child, par = par, parent(par)
     return False
+
+
+def _r04h(chk) -> None:
+    from ..idioms import conditions_at
+
+    repo = chk.repo
+    n = 0
+    m = repo.mod("src/sqlfluff/core/linter/linter.py")
+    for q, f in m.functions():
+        cs = [c for c in calls_in(f) if last_attr(c) == "lint_fix_parsed" and (c.args or kwarg(c, "tree") is not None)]
+        if not cs:
+            continue
+        cfg = cfg_of(f)
+        for c in cs:
+            a = kwarg(c, "tree") or c.args[0]
+            if isinstance(a, ast.Name):
+                os_ = origins(cfg, a, cfg.stmt_of(c))
+                if len(os_) == 1 and os_[0].kind == "expr" and isinstance(os_[0].expr, ast.Attribute):
+                    a = os_[0].expr
+            if not (isinstance(a, ast.Attribute) and a.attr == "tree"):
+                continue  # a parameter of the caller: its own callers are judged
+            n += 1
+            st = cfg.stmt_of(c)
+            text = norm(a)
+            known = False
+            for e, pol in conditions_at(cfg, st):
+                if isinstance(e, ast.UnaryOp) and isinstance(e.op, ast.Not):
+                    e, pol = e.operand, not pol
+                if isinstance(e, ast.Compare) and len(e.ops) == 1 and isinstance(e.comparators[0], ast.Constant) and e.comparators[0].value is None:
+                    if isinstance(e.ops[0], ast.IsNot):
+                        e = e.left
+                    elif isinstance(e.ops[0], ast.Is):
+                        e, pol = e.left, not pol
+                if pol and norm(e) == text:
+                    known = True
+            for x in walk_local(f):
+                if isinstance(x, ast.Assert) and cfg.dominates(x, st):
+                    t = x.test
+                    if isinstance(t, ast.Compare) and len(t.ops) == 1 and isinstance(t.ops[0], ast.IsNot):
+                        t = t.left
+                    if norm(t) == text:
+                        known = True
+            chk.require(
+                known, "R04h", c,
+                f"{q} hands `{text}` to lint_fix_parsed without a dominating test that this variant has a tree: a variant whose parse failed fatally (unclosed bracket in an "
+                "un-taken branch, depth / node limit) has tree = None and the call dies with an AttributeError that nothing converts",
+                detail=f"{q}: lint_fix_parsed gets a tree that is known to exist",
+            )
+    chk.count("R04h.variant_tree_call_sites", n)
+    chk.floor("R04h.variant_tree_call_sites", 2)
 
 
 def _r04f(chk) -> None:
@@ -1429,6 +1481,18 @@ _ELSE_NEW = (
 )
 
 VARIANTS: List[Variant] = [
+    Variant(
+        "alternate-variant-skipped-on-the-wrong-field", "src/sqlfluff/core/linter/linter.py",
+        "                if alternate_variant is root_variant or not alternate_variant.tree:\n",
+        "                if alternate_variant is root_variant or not alternate_variant.templated_file:\n",
+        "R04h", "lint_parsed", "seeded C04-6: an un-taken branch with an unclosed bracket -> AttributeError out of lint",
+    ),
+    Variant(
+        "quiet-alternate-variant-tree-tested-for-none", "src/sqlfluff/core/linter/linter.py",
+        "                if alternate_variant is root_variant or not alternate_variant.tree:\n",
+        "                if alternate_variant is root_variant:\n                    continue\n                if alternate_variant.tree is None:\n",
+        "QUIET", None, "R04h: two early continues, `is None` instead of truthiness",
+    ),
     Variant(
         "limit-error-anchor-without-default", "src/sqlfluff/core/linter/linter.py",
         "            anchor = next((seg for seg in tokens if seg.is_code), None)\n",
